@@ -25,6 +25,18 @@ pub fn rerun(line: &str) -> Option<String> {
             len.parse().ok()?,
             optn(f),
         )),
+        [op @ ("build" | "buildx"), hx, e, m, v, k] => {
+            let o = crate::common::Opts { ecl: optn(e), mode: optn(m), version: optn(v), mask: optn(k) };
+            let l = crate::gen::build_line(&unhex(hx), o);
+            Some(if *op == "buildx" { l.replacen("build ", "buildx ", 1) } else { l })
+        }
+        ["division", d, g] => Some(crate::gen::division_line(&unhex(d), &unhex(g))),
+        ["genpoly", e, v] => Some(crate::gen::genpoly_line(e.parse().ok()?, v.parse().ok()?)),
+        ["masku", v, m, f] => Some(crate::gen::masku_line(v.parse().ok()?, m.parse().ok()?, f.parse().ok()?)),
+        ["pair", hx, e, md, v, a, b] => Some(crate::gen::pair_line(
+            &unhex(hx), e.parse().ok()?, md.parse().ok()?, v.parse().ok()?, a.parse().ok()?, b.parse().ok()?)),
+        ["select", hx, e, md, v, f] => Some(crate::gen::select_line(
+            &unhex(hx), e.parse().ok()?, md.parse().ok()?, v.parse().ok()?, optn(f))),
         ["classify", hx] => Some(crate::gen::classify_line(&unhex(hx))),
         _ => None,
     }
